@@ -45,6 +45,7 @@ def formClass (c : DwarfCfg) (code : Nat) : Option Cls :=
   let off := c.fmt / 8
   match code with
   | 0x01 => some (.fixed c.asz)                                   -- addr
+  | 0x02 => some (.fixed 4)                                       -- ref (legacy, see `formCodes`)
   | 0x03 => some (.blockN 2) | 0x04 => some (.blockN 4)           -- block2, block4
   | 0x05 => some (.fixed 2) | 0x06 => some (.fixed 4) | 0x07 => some (.fixed 8)   -- data2/4/8
   | 0x08 => some .cstr                                             -- string
@@ -76,7 +77,7 @@ def formClass (c : DwarfCfg) (code : Nat) : Option Cls :=
 
 /-- form code → name (DWARF 5 table 7.6 and the GNU alt forms) -/
 def formName : Nat → Option String
-  | 0x01 => some "DW_FORM_addr" | 0x03 => some "DW_FORM_block2" | 0x04 => some "DW_FORM_block4"
+  | 0x01 => some "DW_FORM_addr" | 0x02 => some "DW_FORM_ref" | 0x03 => some "DW_FORM_block2" | 0x04 => some "DW_FORM_block4"
   | 0x05 => some "DW_FORM_data2" | 0x06 => some "DW_FORM_data4" | 0x07 => some "DW_FORM_data8"
   | 0x08 => some "DW_FORM_string" | 0x09 => some "DW_FORM_block" | 0x0a => some "DW_FORM_block1"
   | 0x0b => some "DW_FORM_data1" | 0x0c => some "DW_FORM_flag" | 0x0d => some "DW_FORM_sdata"
@@ -94,10 +95,15 @@ def formName : Nat → Option String
   | _ => none
 
 /-- every form code the standard defines an operand for -/
-def formCodes : List Nat :=
+def stdFormCodes : List Nat :=
   [0x01, 0x03, 0x04, 0x05, 0x06, 0x07, 0x08, 0x09, 0x0a, 0x0b, 0x0c, 0x0d, 0x0e, 0x0f, 0x10, 0x11, 0x12, 0x13, 0x14,
    0x15, 0x16, 0x17, 0x18, 0x19, 0x1a, 0x1b, 0x1c, 0x1d, 0x1e, 0x1f, 0x20, 0x21, 0x22, 0x23, 0x24, 0x25, 0x26, 0x27,
    0x28, 0x29, 0x2a, 0x2b, 0x2c, 0x1f20, 0x1f21]
+
+/-- … and code 0x02, which DWARF 2–5 leave unassigned: the pre-standard FORM_REF of DWARF 1.1 (a 4-byte
+    reference), which producers of that era emitted and the library still reads as `DW_FORM_ref`: four bytes,
+    a unit-relative reference (`unitRefNames`) -/
+def formCodes : List Nat := 0x02 :: stdFormCodes
 
 def FORM_indirect : Nat := 0x16
 def FORM_implicit_const : Nat := 0x21
